@@ -130,7 +130,14 @@ pub fn canon(trace: &[Ev], raw_ids: &[Option<u64>]) -> Vec<Ev> {
 
 pub fn hash_trace(t: &[Ev]) -> u64 {
     let mut h = std::collections::hash_map::DefaultHasher::new();
-    t.hash(&mut h);
+    for e in t {
+        // wall-clock measurements are not part of the reproducible observation
+        if let EvK::OpEnd { op, res: Res::Metrics { count, consistent, .. } } = &e.k {
+            (e.t, e.owner, op, count, consistent).hash(&mut h);
+        } else {
+            e.hash(&mut h);
+        }
+    }
     h.finish()
 }
 
